@@ -588,6 +588,7 @@ def run(ctx):
     if ctx.ensure_library():
         ctx.prove(['theories/Props/C19.v'])
         ctx.effects_obligations()      # regenerated from the current source: see coq/obl/Eff_C19.v
+        ctx.guards_obligations()       # the guard helpers of the in-place operators: see coq/obl/Grd_C19.v
     cases = gen_cases(ctx.rng, ctx.tier)
     terms, tcases = [], []
     for c in cases:
